@@ -494,7 +494,9 @@ void Downtime::TriggerDowntime(double triggerTime)
 		<< "Triggering downtime '" << GetName() << "' for checkable '" << checkable->GetName() << "'.";
 
 	if (GetTriggerTime() == 0) {
-		SetTriggerTime(triggerTime);
+		/* A downtime cannot take effect before its window: a result that was executed before start_time
+		 * but is processed inside the window triggers it at start_time (like Start() and the start timer do). */
+		SetTriggerTime(std::fmax(triggerTime, GetStartTime()));
 	}
 
 	{
